@@ -209,7 +209,7 @@ def _run(modname, job):
     _setup_path()
     import warnings
     warnings.filterwarnings('ignore')
-    mod = importlib.import_module(modname)
+    mod = importlib.import_module('symgem.selftest' if job.get('selftest') else modname)
     fn = getattr(mod, job['fn'])
     t0 = time.time()
     try:
@@ -235,6 +235,9 @@ def run_check(prop, tier, seed, only=None, workers=None):
     jobs = mod.jobs(tier, seed)
     if only:
         jobs = [j for j in jobs if only in j['name']]
+    if not os.environ.get('VERIF_NO_SELFTEST'):
+        from . import selftest
+        jobs = jobs + [j for j in selftest.jobs(prop, tier, seed) if not only or only in j['name'] or 'selftest' == only]
     workers = workers or min(int(os.environ.get('VERIF_WORKERS', '16')), max(1, len(jobs)))
     results = []
     ctxm = mp.get_context('spawn')
